@@ -114,6 +114,24 @@ def h2_connections():
     return out
 
 
+def self_connections():
+    """packets whose two endpoints coincide (same address AND same port: TCP simultaneous-open to oneself on loopback, spoofed
+    "land" segments on any address), IPv4 and IPv6: every analyzer reports them like any other packet, and so does the unified one;
+    plus the neighbouring cases (same address, other port; same port, other address)"""
+    synopts = b"\x02\x04\xff\xd7\x04\x02\x08\x0a\x00\x00\x40\x00\x00\x00\x00\x00\x01\x03\x03\x07"
+    lo, a = (127, 0, 0, 1), (10, 9, 0, 1)
+    lo6 = bytes([0] * 15 + [1])
+    R = b"GET /self HTTP/1.1\r\nHost: self.example\r\nUser-Agent: self-agent\r\nAccept: */*\r\n\r\n"
+    out = []
+    for k, (x, y, px, py) in enumerate(((lo, lo, 5000, 5000), (a, a, 80, 80), (lo, lo, 5001, 5002), (a, (10, 9, 0, 2), 5003, 5003))):
+        out += [c10.frame(x, y, px, py, 100, 0, 0x02, opts=synopts, ipid=9400 + 10 * k), c10.frame(y, x, py, px, 300, 101, 0x12, opts=synopts, ipid=9401 + 10 * k),
+                c10.frame(x, y, px, py, 101, 301, 0x18, R, ipid=9402 + 10 * k)]
+    out.append(c10.frame(lo, lo, 443, 443, 1, 1, 0x18, c10.hello("self.example"), ipid=9450))
+    out += [c10.frame6(lo6, lo6, 6000, 6000, 100, 0, 0x02, opts=synopts), c10.frame6(lo6, lo6, 6000, 6000, 101, 1, 0x18, R),
+            c10.frame6(lo6, lo6, 8443, 8443, 1, 1, 0x18, c10.hello("self6.example"))]
+    return out
+
+
 def run(tier, v):
     wd = vlib.workdir(PID)
     vlib.build_harness()
@@ -155,7 +173,7 @@ def run(tier, v):
         traces.append(sorted(frames, key=lambda f: 0) if False else frames)
     # ordered variant: the un-shuffled concatenation gives complete connections
     tr = c10.build_traces(rng, 5, nrich=6)
-    traces.append([f for crate in ("tcp", "http", "tls") for _, f in tr[crate]] + partly_rejected_connections() + ipv6_connections() + h2_connections())
+    traces.append([f for crate in ("tcp", "http", "tls") for _, f in tr[crate]] + partly_rejected_connections() + ipv6_connections() + h2_connections() + self_connections())
     # a trace with IPv4 and IPv6 handshakes and exchanges under a database in which every observation is a signature of both tables of
     # its protocol, labelled by table (see C02 table selection): labels must agree between the unified and the protocol analyzers
     from props import c02
